@@ -117,6 +117,7 @@ def install_sow(R):
     info_saved = ("saved", "fs_exists(InfoPath(self.location)) and fs_complete(InfoPath(self.location)) and "
                            "mat(fs_content(InfoPath(self.location)), 'combos') == combos and mat(fs_content(InfoPath(self.location)), 'cases') == cases and "
                            "mat(fs_content(InfoPath(self.location)), 'fn_args') == fn_args and "
+                           "mat(fs_content(InfoPath(self.location)), 'constants') == constants and mhas(fs_content(InfoPath(self.location)), 'constants') and "
                            "mat(fs_content(InfoPath(self.location)), 'batchsize') == self.batchsize and "
                            "mat(fs_content(InfoPath(self.location)), 'num_batches') == self.num_batches and "
                            "mat(fs_content(InfoPath(self.location)), '_batch_remainder') == self._batch_remainder and "
@@ -188,6 +189,15 @@ def install_sow2(R):
                     "(mat(CropRunner(self)._constants, v_k) if mhas(CropRunner(self)._constants, v_k) else mat(CropRunner(self)._resources, v_k))))))")],
           raises={"AnyError": dict()})
 
+    def same_given_constants(eng, fr, saved, given):
+        """the saved mapping has exactly the given constants (none when nothing was given)"""
+        sv, gv = eng.as_V(saved), eng.as_V(given)
+        k = z3.Const(fresh_name("k"), V)
+        has_g = z3.And(z3.Not(T.is_VNone(gv)), T.mhas(gv, k))
+        return mk_bool(z3.And(T.is_VObj(sv), T.tag(sv) == T.TAG["dict"],
+                              z3.ForAll([k], z3.And(T.mhas(sv, k) == has_g, z3.Implies(has_g, T.mat(sv, k) == T.mat(gv, k))))))
+    S["SameGivenConstants"] = same_given_constants
+
     def given_has(eng, fr, c, k):
         cv = eng.as_V(c)
         return mk_bool(z3.And(z3.Not(T.is_VNone(cv)), T.mhas(cv, eng.as_V(k))))
@@ -250,6 +260,7 @@ def install_sow2(R):
                                      "call_arg('Crop.prepare', 'cases') == call_arg('combo_runner_core', 'cases') and "
                                      "call_arg('Crop.choose_batch_settings', 'combos') == call_arg('combo_runner_core', 'combos') and "
                                      "call_arg('Crop.choose_batch_settings', 'cases') == call_arg('combo_runner_core', 'cases')"),
+              ("constants_given_here_are_saved_for_the_reap", "SameGivenConstants(call_arg('Crop.prepare', 'constants'), old(constants))"),
               ("sows_in_saved_order", "call_arg('combo_runner_core', 'shuffle') == self.shuffle"),
               ("shuffle_setting", "self.shuffle == (old(self.shuffle) if old(shuffle) is None else old(shuffle))"),
               ("sower_receives_the_settings", "call_arg('combo_runner_core', 'fn') == call_arg('Sower.__init__', 'self') and call_arg('Sower.__init__', 'crop') == self "
@@ -281,6 +292,7 @@ def install_sow3(R):
                                      "call_arg('Crop.prepare', 'fn_args') == call_arg('case_runner', 'fn_args') and "
                                      "call_arg('Crop.choose_batch_settings', 'combos') == call_arg('case_runner', 'combos') and "
                                      "call_arg('Crop.choose_batch_settings', 'cases') == call_arg('case_runner', 'cases') and call_arg('case_runner', 'parse') == False"),
+              ("constants_given_here_are_saved_for_the_reap", "SameGivenConstants(call_arg('Crop.prepare', 'constants'), old(constants))"),
               ("sows_in_saved_order", "call_arg('case_runner', 'shuffle') == self.shuffle and self.shuffle == old(self.shuffle)"),
               ("sower_receives_the_settings", "call_arg('case_runner', 'fn') == call_arg('Sower.__init__', 'self') and call_arg('Sower.__init__', 'crop') == self "
                                               "and call_arg('case_runner', 'constants') == call_result('Crop.parse_constants')"),
